@@ -8,6 +8,8 @@ stated for *all* text (stronger). Every remaining hypothesis is a decidable pred
 satisfiable by an `example` and necessary by a `_needed` witness.
 -/
 import WzVerif.Lemmas.Http
+import WzVerif.Lemmas.HttpOpt3
+import WzVerif.Lemmas.HttpEtag
 namespace Wz.Props.C06
 open Wz Wz.Http
 
@@ -140,6 +142,114 @@ theorem parseDict_dump_needs_no_star :
 theorem parseDict_dump_needs_distinct :
     (dumpHeaderDict [(['a'], some ['1']), (['a'], some ['2'])] >>= parseDictHeader)
       ≠ .ok [(['a'], some ['1']), (['a'], some ['2'])] := by
+  decide
+
+/-! ### option headers -/
+
+/-- primary value: non-empty, no `;`, no surrounding white space -/
+abbrev HdrOk := Wz.Http.HdrOk
+/-- parameter name: non-empty lower-case token without `*` -/
+abbrev OptKeyOk := Wz.Http.OptKeyOk
+/-- the text contains the literal `%22` -/
+abbrev hasPct22 := Wz.Http.hasPct22
+
+/-- `parse_options_header(dump_options_header(h, opts)) == (h, opts)` for every primary value `h`
+(non-empty, no `;`, stripped) and every dict of parameters with distinct lower-case token names free
+of `*` and arbitrary Unicode values that do not contain the literal `%22`. -/
+theorem parseOptions_dump (h : Str) (opts : List (Str × Str)) (hh : HdrOk h = true)
+    (hk : ∀ x ∈ opts, OptKeyOk x.1 = true) (hv : ∀ x ∈ opts, hasPct22 x.2 = false)
+    (hnd : (opts.map (·.1)).Nodup) :
+    (dumpOptionsHeader (some h) (opts.map fun kv => (kv.1, some kv.2)) >>= parseOptionsHeader) = .ok (h, opts) :=
+  parseOptions_dump_any h opts hh hk hv hnd
+
+example : HdrOk "form-data".toList = true ∧
+    (∀ x ∈ [("name".toList, ['a', '"', 'b', '\\', ';', ' ']), ("filename".toList, ([] : Str)), ("x".toList, "%2".toList)],
+      OptKeyOk x.1 = true ∧ hasPct22 x.2 = false) ∧
+    ([("name".toList, ['a', '"', 'b', '\\', ';', ' ']), ("filename".toList, ([] : Str)), ("x".toList, "%2".toList)].map (·.1)).Nodup := by
+  decide
+
+/-- the primary value must be non-empty: `parse_options_header` returns no options otherwise -/
+theorem parseOptions_dump_needs_header :
+    (dumpOptionsHeader (some []) [(['k'], some ['v'])] >>= parseOptionsHeader) ≠ .ok ([], [(['k'], ['v'])]) := by
+  decide
+
+/-- ... free of `;` -/
+theorem parseOptions_dump_needs_no_semicolon :
+    (dumpOptionsHeader (some ['a', ';', 'b']) [(['k'], some ['v'])] >>= parseOptionsHeader)
+      ≠ .ok (['a', ';', 'b'], [(['k'], ['v'])]) := by
+  decide
+
+/-- ... and stripped -/
+theorem parseOptions_dump_needs_stripped :
+    (dumpOptionsHeader (some [' ', 'a']) [] >>= parseOptionsHeader) ≠ .ok ([' ', 'a'], []) := by
+  decide
+
+/-- parameter names are lower-cased by the parser -/
+theorem parseOptions_dump_needs_lowercase :
+    (dumpOptionsHeader (some ['a']) [(['K'], some ['v'])] >>= parseOptionsHeader) ≠ .ok (['a'], [(['K'], ['v'])]) := by
+  decide
+
+/-- a `*` in the name is RFC 2231 syntax (`k*0` is a continuation of `k`) -/
+theorem parseOptions_dump_needs_no_star :
+    (dumpOptionsHeader (some ['a']) [(['k', '*', '0'], some ['v'])] >>= parseOptionsHeader)
+      ≠ .ok (['a'], [(['k', '*', '0'], ['v'])]) := by
+  decide
+
+/-- the literal `%22` inside a quoted value decodes to `"` (documented) -/
+theorem parseOptions_dump_needs_no_pct22 :
+    (dumpOptionsHeader (some ['a']) [(['k'], some ['x', ' ', '%', '2', '2'])] >>= parseOptionsHeader)
+      ≠ .ok (['a'], [(['k'], ['x', ' ', '%', '2', '2'])]) := by
+  decide
+
+/-- names must be distinct -/
+theorem parseOptions_dump_needs_distinct :
+    (dumpOptionsHeader (some ['a']) [(['k'], some ['1']), (['k'], some ['2'])] >>= parseOptionsHeader)
+      ≠ .ok (['a'], [(['k'], ['1']), (['k'], ['2'])]) := by
+  decide
+
+/-! ### entity tags -/
+
+/-- an entity tag of the domain: non-empty, no `"`, no LF (`.` of `_etag_re` does not match LF) -/
+abbrev TagOk := Wz.Http.TagOk
+
+/-- `unquote_etag(quote_etag(e, weak)) == (e, weak)` for every tag without `"` (the empty tag
+included). -/
+theorem etag_roundtrip (e : Str) (weak : Bool) (hq : e.contains '"' = false) :
+    (quoteEtag e weak).map unquoteEtag = .ok (some (e, weak)) :=
+  unquote_quoteEtag e weak hq
+
+example : (quoteEtag ['W', '/', ' ', 'x'] true).map unquoteEtag = .ok (some (['W', '/', ' ', 'x'], true)) := by decide
+
+/-- `quote_etag` refuses a tag containing `"` (documented ValueError) -/
+theorem etag_roundtrip_needs_no_quote : quoteEtag ['a', '"'] = .error "ValueError" := by decide
+
+/-- `parse_etags(ETags(strong, weak).to_header())` has the same strong and weak members, for every
+collection of non-empty tags without `"` and LF and for every iteration order of the two frozensets
+(the lists are arbitrary orderings; equal lists give equal sets). -/
+theorem etags_roundtrip (strong weak : List Str)
+    (hs : ∀ x ∈ strong, TagOk x = true) (hw : ∀ x ∈ weak, TagOk x = true) :
+    parseEtags (etagsToHeader ⟨strong.map some, weak.map some, false⟩)
+      = ⟨strong.map some, weak.map some, false⟩ :=
+  etags_roundtrip_any strong weak hs hw
+
+example : (∀ x ∈ [['a', ',', ' ', 'b'], ['*'], ['W', '/']], TagOk x = true) ∧ (∀ x ∈ [[' ', 'é']], TagOk x = true) := by
+  decide
+
+/-- the star tag round-trips too -/
+theorem etags_star_roundtrip : parseEtags (etagsToHeader ⟨[], [], true⟩) = ⟨[], [], true⟩ := by decide
+
+/-- an empty tag is read back as Python's `None` (the `elif quoted:` test is falsy) -/
+theorem etags_roundtrip_needs_nonempty :
+    parseEtags (etagsToHeader ⟨[some []], [], false⟩) ≠ ⟨[some []], [], false⟩ := by decide
+
+/-- a `"` inside a tag ends it early -/
+theorem etags_roundtrip_needs_no_quote :
+    parseEtags (etagsToHeader ⟨[some ['a', '"', ',', 'b']], [], false⟩) ≠ ⟨[some ['a', '"', ',', 'b']], [], false⟩ := by
+  decide
+
+/-- `.` does not match LF: a tag containing one is not recognised -/
+theorem etags_roundtrip_needs_no_lf :
+    parseEtags (etagsToHeader ⟨[some ['a', '\n', 'b']], [], false⟩) ≠ ⟨[some ['a', '\n', 'b']], [], false⟩ := by
   decide
 
 end Wz.Props.C06
